@@ -243,6 +243,11 @@ def run(rep, facts, tier):
     two = {k: v for k, v in facts.items() if k in ("A", "M")}
     nf = import_rules(rep, c10, two, tier, "FIELD")
     no = import_rules(rep, c08, two, tier, "OBSERVE", pred=lambda k: not k.startswith("CONST/"))
+    # the decoding entry points (which inputs each conversion accepts, and that all funnel into the one decoder) against the same reference
+    # shape in both builds: C02's FUNNEL instances
+    from . import c02 as _c02
+    nd = import_rules(rep, _c02, two, tier, "DECODE", pred=lambda k: k.startswith("FUNNEL/"))
+    rep.floor("decode_entry_instances", nd, 8)
     G.check_select(rep, M)
     rep.floor("field_layer_instances", nf, 400)
     rep.floor("observer_instances", no, 12)
